@@ -20,6 +20,7 @@ import (
 type c12Case struct {
 	Stream    []EnvSpec `json:"stream"`
 	TLS       bool      `json:"tls,omitempty"`
+	LimitSlack int      `json:"limitSlack,omitempty"`   // > 0: the receiver's ReadLimit is the largest frame of the stream plus this many bytes (it bounds one envelope, not the connection)
 	TLS12     bool      `json:"tls12,omitempty"`        // TLS capped at version 1.2
 	SenderEnd bool      `json:"senderCloses,omitempty"` // the sender closes its transport right after its last Send (under TLS the close notification follows the data at once)
 	WritePlan []Fault   `json:"writePlan,omitempty"` // consumed by the sender's connection writes
@@ -98,6 +99,20 @@ func runC12(c *c12Case) *c12Obs {
 		}
 		s, cc := TLSConfigs()
 		scfg, ccfg = &lime.TCPConfig{TLSConfig: s}, &lime.TCPConfig{TLSConfig: cc}
+	}
+	if c.LimitSlack > 0 {
+		maxFrame := 0
+		for i := range c.Stream {
+			if v, err := c.Stream[i].Build(); err == nil {
+				if b, err := json.Marshal(v); err == nil && len(b)+1 > maxFrame {
+					maxFrame = len(b) + 1
+				}
+			}
+		}
+		if scfg == nil {
+			scfg = &lime.TCPConfig{}
+		}
+		scfg.ReadLimit = int64(maxFrame + c.LimitSlack)
 	}
 	ts := lime.VerifNewTCPTransport(cl, ccfg, false) // sender
 	tr := lime.VerifNewTCPTransport(sv, scfg, true)  // receiver
@@ -275,6 +290,9 @@ func judgeC12(c *c12Case, obs *c12Obs, o *Outcome) {
 	if c.SenderEnd {
 		o.Class("sender-closes-after-its-last-send")
 	}
+	if c.LimitSlack > 0 {
+		o.Class("read-limit-just-above-the-largest-frame")
+	}
 	o.NonTrivial = fc != "no-fault" || obs.Reads > obs.Frames+1
 	if strings.HasPrefix(obs.RecvErr, "harness:") {
 		o.Fail("C12/harness", "%s", obs.RecvErr)
@@ -451,6 +469,15 @@ func TestC12Sweep(t *testing.T) {
 			run(&c12Case{Stream: big, PipeCap: cap, TLS: true, ReadPlan: []Fault{{Op: FStall, D: 7000}}, SendCtx: []string{ctx0}})
 		}
 	}
+	// a read limit just above the largest frame bounds one envelope, not the connection: long streams under chunking
+	long := c12Stream(40, 300)
+	for _, slack := range []int{1, 64} {
+		for _, chunk := range []int{0, 7, 100} {
+			run(&c12Case{Stream: long, LimitSlack: slack, ReadChunk: chunk})
+			run(&c12Case{Stream: long, LimitSlack: slack, ReadChunk: chunk, Coalesce: true})
+			run(&c12Case{Stream: long, LimitSlack: slack, ReadChunk: chunk, TLS: true})
+		}
+	}
 	// the sender says its last word and closes at once (under TLS 1.2 the receiver's connection then hands over the last
 	// record together with the end of the stream), the receiver reads afterwards or alongside
 	for _, tls12 := range []bool{false, true} {
@@ -553,6 +580,9 @@ func TestC12(t *testing.T) {
 			c.TLS12 = rapid.Bool().Draw(rt, "tls12")
 		}
 		c.SenderEnd = rapid.IntRange(0, 2).Draw(rt, "senderCloses") == 0
+		if rapid.IntRange(0, 3).Draw(rt, "limit") == 0 {
+			c.LimitSlack = rapid.SampledFrom([]int{1, 64, 600}).Draw(rt, "limitSlack")
+		}
 		c.Coalesce = rapid.Bool().Draw(rt, "coalesce")
 		c.PipeCap = rapid.SampledFrom([]int{0, 64, 1024, 4096}).Draw(rt, "cap")
 		if c.Coalesce {
